@@ -137,6 +137,12 @@ func registerMath(e *Engine) {
 		return tuple(VBig{T: IntC(n)}, VBool{tTrue})
 	}
 	in[M+"NewUint"] = func(p *Path, a []Value) Value { return VBig{T: tInt(a[0])} }
+	// serialised size of an Int: at least one byte; only compared with zero / added up
+	in["(cosmossdk.io/math.Int).Size"] = func(p *Path, a []Value) Value { return VInt{p.freshInt("intsize", bi(1), bi(80))} }
+	in["(*cosmossdk.io/math.Int).Size"] = in["(cosmossdk.io/math.Int).Size"]
+	in["(cosmossdk.io/math.LegacyDec).Size"] = in["(cosmossdk.io/math.Int).Size"]
+	in["(*cosmossdk.io/math.LegacyDec).Size"] = in["(cosmossdk.io/math.Int).Size"]
+	in["github.com/cosmos/gogoproto/types.SizeOfStdTime"] = func(p *Path, a []Value) Value { return VInt{p.freshInt("timesize", bi(0), bi(16))} }
 	in["(cosmossdk.io/math.Uint).Uint64"] = func(p *Path, a []Value) Value { return VInt{big_(a[0]).T} }
 
 	bin := func(name string, f func(x, y *Term) *Term) {
